@@ -64,11 +64,18 @@ def main():
             sh("git -C /repo worktree remove --force %s" % wt, "/")
             shutil.rmtree(wt, ignore_errors=True)
         out["confirmed"] = out.get("demo_without_change") == "pass" and out.get("suite_with_change") == "pass" and out.get("demo_with_change") == "fail"
-    # run the checks against /repo with the change applied
-    rc, st = sh("git -C /repo status --porcelain", "/")
+    # run the checks against /repo with the change applied (--clone: against a scratch clone of /repo, from a snapshot of /verif,
+    # so that /repo itself stays free for a long run; the driver honours VERIF_REPO only outside /verif)
+    clone = "--clone" in args
+    repo = "/repo"
+    if clone:
+        repo = "/dev/shm/repo-seed-%d" % os.getpid()
+        shutil.rmtree(repo, ignore_errors=True)
+        sh("git clone -q /repo %s" % repo, "/")
+    rc, st = sh("git -C %s status --porcelain" % repo, "/")
     if st.strip():
-        print("/repo is dirty, refusing"); sys.exit(2)
-    rc, o = sh("git -C /repo apply %s" % patch, "/")
+        print("%s is dirty, refusing" % repo); sys.exit(2)
+    rc, o = sh("git -C %s apply %s" % (repo, patch), "/")
     if rc != 0:
         out["apply_error"] = o
     else:
@@ -77,13 +84,17 @@ def main():
             for tier, ids in (("quick", checks), ("thorough", thorough)):
                 for cid in ids:
                     t0 = time.time()
-                    rc, o = sh("./check %s %s" % (cid, tier), ROOT, timeout=7200, env=dict(ENV, VERIF_SEED=os.environ.get("VERIF_SEED", "1")))
+                    rc, o = sh("./check %s %s" % (cid, tier), ROOT, timeout=7200, env=dict(ENV, VERIF_SEED=os.environ.get("VERIF_SEED", "1"), **({"VERIF_REPO": repo} if clone else {})))
                     fl = [l for l in o.splitlines() if l.startswith("FAILURE") or l.startswith("REPLAY-FAILED")]
                     det["%s/%s" % (cid, tier)] = dict(rc=rc, seconds=round(time.time() - t0, 1), violation=(rc == 1), first_failure=(fl[0][:400] if fl else ""))
                     out["ran"].append("git -C /repo apply patch.diff; ./check %s %s (VERIF_SEED=%s) -> exit %d; git -C /repo checkout -- ." % (cid, tier, os.environ.get("VERIF_SEED", "1"), rc))
             out["detection"] = det
         finally:
-            sh("git -C /repo checkout -- . && git -C /repo clean -fdq", "/")
+            if clone:
+                shutil.rmtree(repo, ignore_errors=True)
+                sh("git checkout -- harness/go.mod", ROOT)
+            else:
+                sh("git -C /repo checkout -- . && git -C /repo clean -fdq", "/")
             shutil.rmtree(os.path.join(ROOT, "replays", "out"), ignore_errors=True)
     dst = os.path.join(ROOT, "seeded", name)
     os.makedirs(dst, exist_ok=True)
